@@ -259,7 +259,9 @@ mod support;
 fn main() {
     let seed: u64 = std::env::var("VERIF_SEED").ok().and_then(|s| s.parse().ok()).unwrap_or(1);
     let filter: Vec<String> = std::env::args().skip(1).collect();
-    std::panic::set_hook(Box::new(|_| {}));
+    // panics inside guarded checks are reported through FAIL lines; the message also goes to stderr
+    // so that a non-unwinding panic (e.g. rustc's invalid-enum-value trap) leaves a trace
+    std::panic::set_hook(Box::new(|info| { eprintln!("PANIC: {}", info); }));
     let checks: Vec<(&str, fn(u64) -> support::Out)> = vec![
 %(entries)s
     ];
@@ -367,6 +369,25 @@ def run_instances(scratch, specs, seed=1, tier="quick", target=None, name="inst"
     exe = os.path.join(target, "debug", name)
     rc, out, err, dt = run([exe], env={"VERIF_SEED": str(seed)}, timeout=3600)
     res["run_s"] = dt
+    crashed = {}
+    if rc != 0:
+        # the driver died (abort / signal — e.g. the invalid-enum-value trap of a debug build): find the
+        # module(s) by running the modules that did not report DONE one at a time
+        done = {l.split("\t")[1] for l in out.split("\n") if l.startswith("DONE\t")}
+        outs = [out]
+        for s_ in specs:
+            if s_.mod in done:
+                continue
+            rc1, out1, err1, dt1 = run([exe, s_.mod], env={"VERIF_SEED": str(seed)}, timeout=1200)
+            res["run_s"] += dt1
+            outs.append(out1)
+            if rc1 != 0:
+                msgs = [l for l in err1.split("\n") if l.startswith("PANIC:") or "invalid value" in l or "unsafe precondition" in l]
+                at = [l.split("\t") for l in err1.split("\n") if l.startswith("AT\t")]
+                where = at[-1] if at else ["AT", s_.mod, "C02", "?"]
+                crashed[s_.mod] = (where[2], where[3], "process died with status %d during the %s check: %s" % (rc1, where[3], " | ".join(msgs[-3:])[:600] or err1[-300:]))
+        out = "\n".join(outs)
+        rc = 0
     res["mods_info"] = mods
     for s in all_specs:
         res["modules"][s.mod] = {"fails": [], "evals": 0, "done": False}
@@ -379,8 +400,12 @@ def run_instances(scratch, specs, seed=1, tier="quick", target=None, name="inst"
             m = res["modules"].setdefault(p[1], {"fails": [], "evals": 0, "done": False})
             m["evals"] = int(p[2])
             m["done"] = True
-    if rc != 0:
-        res["run_error"] = "instance driver exited with %d: %s" % (rc, err[-2000:])
+    for modname, (prop, check, why) in crashed.items():
+        m = res["modules"].setdefault(modname, {"fails": [], "evals": 0, "done": False})
+        m["done"] = True
+        m["fails"].append({"prop": "C02", "check": "crash in " + check, "detail": why})
+        if prop != "C02":
+            m["fails"].append({"prop": prop, "check": "crash in " + check, "detail": why})
     return res
 
 
